@@ -22,7 +22,9 @@
 #include "vf/vf.h"
 
 #define VF_RB_IOVN	6
+#ifndef VF_RB_MAXSIZE
 #define VF_RB_MAXSIZE	(((size_t)1) << 40)	/* ring sizes of the harnesses (no wrap of 5 * mbs) */
+#endif
 
 /* offset of a pointer into the ring storage (callers establish same-object first) */
 #ifndef VF_REPLAY
@@ -158,17 +160,42 @@ vf_rb_sum(const r_buf_t *r, size_t from, size_t to) {
 	return (s);
 }
 
-/* bytes between a valid, normalised cursor and the writer */
+/* sum of cnt consecutive block lengths starting at table index from */
+static inline size_t
+vf_rb_run(const r_buf_t *r, size_t from, size_t cnt) {
+	size_t i, s = 0;
+
+	for (i = 0; i < cnt && i < VF_RB_IOVN; i ++)
+		s += r->iov[from + i].iov_len;
+	return (s);
+}
+
+/*
+ * Bytes between an accepted cursor and the writer: the blocks from the cursor to the last
+ * valid index of its round, plus - for a cursor of the previous round - the blocks of the
+ * current round, minus the offset already consumed inside the first block.
+ * With RBUF_F_FRAG the blocks are summed; without it the blocks of a round are contiguous
+ * (invariant) and the same quantity is the address difference "end of the last block -
+ * start of the cursor's block".  [That the two forms agree under contiguity is the
+ * telescoping sum of the invariant's `off == end` clause: 64-bit re-association that none of
+ * the installed back ends closed in 300 s; it is argued on paper, see obligations/C19.json.]
+ */
 static inline size_t
 vf_rb_avail(const r_buf_t *r, const r_buf_rpos_t *rp) {
+	const int frag = ((r->flags & RBUF_F_FRAG) != 0);
+	const size_t idx = rp->iov_index, cur = r->iov_index, max = r->iov_index_max;
 
 	if (rp->round_num == r->round_num) {
-		if (rp->iov_index > r->iov_index)
+		if (idx > cur)
 			return (0);
-		return (vf_rb_sum(r, rp->iov_index, r->iov_index) - rp->iov_off);
+		if (frag)
+			return (vf_rb_run(r, idx, 1 + cur - idx) - rp->iov_off);
+		return (r->wpos - VF_RB_OFF(r, r->iov[idx].iov_base) - rp->iov_off);
 	}
-	return (vf_rb_sum(r, rp->iov_index, r->iov_index_max) +
-	    vf_rb_sum(r, 0, r->iov_index) - rp->iov_off);
+	if (frag)
+		return (vf_rb_run(r, idx, 1 + max - idx) + vf_rb_run(r, 0, 1 + cur) - rp->iov_off);
+	return ((VF_RB_OFF(r, r->iov[max].iov_base) + r->iov[max].iov_len -
+	    VF_RB_OFF(r, r->iov[idx].iov_base)) + r->wpos - rp->iov_off);
 }
 
 /* ------------------------------------------------- symbolic ring builder ---- */
